@@ -451,6 +451,14 @@ def mutate_doc(r, doc, kind):
         return None
     if kind == "beg_gt_end" and version == "gfa2":
         for i in idx:
+            if recs[i].rt == "F":
+                # (an interval is a pair begin <= end, on the segment and on the external sequence alike)
+                side = gen.choice(r, [2, 4])
+                e = M.pos_val(recs[i].pos[side + 1])
+                if e[0] >= 1:
+                    recs[i].pos[side] = str(e[0])
+                    recs[i].pos[side + 1] = str(e[0] - 1)
+                    return out(), "refuse"
             if recs[i].rt == "E":
                 side = gen.choice(r, [3, 5])
                 b, e = M.pos_val(recs[i].pos[side]), M.pos_val(recs[i].pos[side + 1])
